@@ -1,55 +1,60 @@
 ------------------------------ MODULE OrderMC ------------------------------
 (* C06, spec -> code: TLC enumerates the bounded input space of `order`; every
-   initial state is one case.  The invariants check the contract itself.
+   non-seed state is one case.  The invariants check the contract itself.
 
-   Fam = "dag" : every DAG on 1..n (n <= N) in canonical numbering x every
-                 assignment of node kinds  "t" (task) / "p" (plain: data if it has
-                 no dependency, alias or list otherwise)
-   Fam = "ext" : the same (n <= N) x every set of at most MaxExt references from
-                 task nodes to the external keys n+1, n+2
-   Fam = "cyc" : every cyclic digraph on 1..n (n <= N, self-loops included)
-                 x kinds (all kinds if AllKinds, else all-task and all-plain)  *)
+   Plan is a sequence of enumeration jobs
+       [fam, n, allkinds, maxext, stride, offset]
+   fam = "dag" : every DAG on 1..n in canonical numbering x every assignment of
+                 node kinds  "t" (task) / "p" (plain: data if it has no dependency,
+                 alias or list otherwise)
+   fam = "ext" : the same x every non-empty set of at most maxext references
+                 from task nodes to the external keys n+1, n+2
+   fam = "cyc" : every cyclic digraph on 1..n (self-loops included) x kinds
+   allkinds = FALSE restricts the kinds to all-task and all-plain;
+   (stride, offset) = (1, 0) enumerates every graph code, otherwise only the codes
+   gc with gc % stride = offset (a declared sample, used above the exhaustive bound). *)
 EXTENDS Order, TLC, Json
 
-CONSTANTS Fam, N, MaxExt, AllKinds, UnsatN,
-          Stride, Offset   \* graph codes gc with gc % Stride = Offset are enumerated (1, 0 = all)
+CONSTANTS Plan,
+          UnsatN     \* CyclicUnsatisfiable is checked by brute force up to this many nodes
 
 VARIABLES case, out
 
 KindsOfCode(n, c) == [i \in 1..n |-> IF Bit(c, i - 1) = 1 THEN "p" ELSE "t"]
-KindCodes(n)      == IF AllKinds THEN 0..(2 ^ n - 1) ELSE {0, 2 ^ n - 1}
+KindCodes(j)      == IF j.allkinds THEN 0..(2 ^ j.n - 1) ELSE {0, 2 ^ j.n - 1}
 
-ExtPairs(n, kinds) == { <<k, e>> \in (1..n) \X {n + 1, n + 2} : kinds[k] = "t" }
-ExtSets(n, kinds)  == { X \in SUBSET ExtPairs(n, kinds) : Cardinality(X) \in 1..MaxExt }
-WithExt(g, X)      == [k \in DOMAIN g |-> g[k] \cup { p[2] : p \in { q \in X : q[1] = k } }]
+ExtPairs(n, kinds)  == { <<k, e>> \in (1..n) \X {n + 1, n + 2} : kinds[k] = "t" }
+ExtSets(n, kinds, m) == { X \in SUBSET ExtPairs(n, kinds) : Cardinality(X) \in 1..m }
+WithExt(g, X)       == [k \in DOMAIN g |-> g[k] \cup { p[2] : p \in { q \in X : q[1] = k } }]
 
 G(c) == [k \in 1..c.n |-> c.deps[k]]
 Export(c) == ToJson([c |-> c, e |-> [dag |-> IsDag(G(c))]])
 
 \* Two-level enumeration so that TLC's workers share the work: an initial "seed" state
-\* per (n, slice); its successors are the cases of that slice.  Seeds export nothing.
+\* per (job, slice); its successors are the cases of that slice.  Seeds export nothing.
 Slices == 16
-NumCodes(n) == IF Fam = "cyc" THEN NumDigraphCodes(n) ELSE NumDagCodes(n)
-CodesOf(n, s) == { gc \in { q * Stride + Offset : q \in { x \in 0..(NumCodes(n) \div Stride) : x % Slices = s } } :
-                     gc < NumCodes(n) }
+NumCodes(j) == IF j.fam = "cyc" THEN NumDigraphCodes(j.n) ELSE NumDagCodes(j.n)
+CodesOf(j, s) == { gc \in { q * j.stride + j.offset : q \in { x \in 0..(NumCodes(j) \div j.stride) : x % Slices = s } } :
+                     gc < NumCodes(j) }
 
-Init == \E n \in 1..N : \E s \in 0..(Slices - 1) :
-          /\ case = [fam |-> "seed", n |-> n, s |-> s]
+Init == \E p \in DOMAIN Plan : \E s \in 0..(Slices - 1) :
+          /\ case = [fam |-> "seed", p |-> p, s |-> s]
           /\ out = ""
 
-Gen(n, s) ==
-  \E gc \in CodesOf(n, s) : \E kc \in KindCodes(n) :
-    LET kinds == KindsOfCode(n, kc) IN
-    CASE Fam = "dag" -> /\ case' = [fam |-> "dag", n |-> n, deps |-> DagOfCode(n, gc), kinds |-> kinds]
-                        /\ out' = Export(case')
-      [] Fam = "ext" -> \E X \in ExtSets(n, kinds) :
-                        /\ case' = [fam |-> "ext", n |-> n, deps |-> WithExt(DagOfCode(n, gc), X), kinds |-> kinds]
-                        /\ out' = Export(case')
-      [] Fam = "cyc" -> /\ HasCycle(DigraphOfCode(n, gc))
-                        /\ case' = [fam |-> "cyc", n |-> n, deps |-> DigraphOfCode(n, gc), kinds |-> kinds]
-                        /\ out' = Export(case')
+Gen(j, s) ==
+  \E gc \in CodesOf(j, s) : \E kc \in KindCodes(j) :
+    LET n == j.n
+        kinds == KindsOfCode(n, kc) IN
+    CASE j.fam = "dag" -> /\ case' = [fam |-> "dag", n |-> n, deps |-> DagOfCode(n, gc), kinds |-> kinds]
+                          /\ out' = Export(case')
+      [] j.fam = "ext" -> \E X \in ExtSets(n, kinds, j.maxext) :
+                          /\ case' = [fam |-> "ext", n |-> n, deps |-> WithExt(DagOfCode(n, gc), X), kinds |-> kinds]
+                          /\ out' = Export(case')
+      [] j.fam = "cyc" -> /\ HasCycle(DigraphOfCode(n, gc))
+                          /\ case' = [fam |-> "cyc", n |-> n, deps |-> DigraphOfCode(n, gc), kinds |-> kinds]
+                          /\ out' = Export(case')
 
-Next == IF case.fam = "seed" THEN Gen(case.n, case.s) ELSE UNCHANGED <<case, out>>
+Next == IF case.fam = "seed" THEN Gen(Plan[case.p], case.s) ELSE UNCHANGED <<case, out>>
 
 IsCase == case.fam # "seed"
 
